@@ -396,6 +396,15 @@ func C06(c *core.Ctx) {
 			if core.Unwrap(cond) == core.Unwrap(rxFound) {
 				continue
 			}
+			aboutFound := false
+			for _, ft := range core.ExpandFact(ifi.Cond, true) {
+				if core.Unwrap(ft.V) == core.Unwrap(rxFound) {
+					aboutFound = true // rxTrFound == false, !rxTrFound, ...
+				}
+			}
+			if aboutFound {
+				continue
+			}
 			if bo, ok := cond.(*ssa.BinOp); ok {
 				isLenBuf := func(v ssa.Value) bool {
 					cl, ok := v.(*ssa.Call)
